@@ -507,7 +507,7 @@ theorem run_shape (cfg : Cfg) (env : Env) (st0 : Mask) (hc : Compliant cfg.toFCf
     have h := loop_shape cfg st0 hc fuel false
       { state := st0, tls := false, hs := false, buf := [], clear := i.clear, prot := i.prot,
         oracle := i.oracle, negotiated := [], doRestart := true, first := true,
-        domain := env.domain, captured := env.captured, sni := env.conn.name, features := [], trace := [] }
+        laddr := ownAddr env st0, captured := env.captured, sni := env.conn.name, features := [], trace := [] }
       (Or.inr ⟨⟨⟨⟨rfl, hs, rfl, rfl, fun e he => (by cases he)⟩, rfl⟩, rfl, rfl⟩, hr⟩)
     obtain ⟨h1, _, h3⟩ := h
     have hrev : ∀ l : List Ev, (l.reverse).filter isSig = (sig l).reverse := by
@@ -536,7 +536,7 @@ theorem run_secure_conn (cfg : Cfg) (env : Env) (st0 : Mask) (hk : env.conn.star
     have h := loop_PS cfg [] fuel false
       { state := st0 ||| Secure, tls := true, hs := false, buf := [], clear := i.clear, prot := i.prot,
         oracle := i.oracle, negotiated := [], doRestart := true, first := true,
-        domain := env.domain, captured := env.captured, sni := env.conn.name, features := [], trace := [] }
+        laddr := ownAddr env st0, captured := env.captured, sni := env.conn.name, features := [], trace := [] }
       ⟨⟨rfl, has_or_self st0 Secure, fun e he => (by cases he)⟩, rfl⟩
     refine ⟨?_, h.2⟩
     have hrev : ∀ l : List Ev, (l.reverse).filter isSig = (sig l).reverse := by
